@@ -92,9 +92,9 @@ impl Oracle for CcOracle {
                     data_eliciting = true;
                 }
                 // (with a `minimum_change` of 1 the search can end up probing the size it has
-                // already confirmed: a probe all the same — PING [+ IMMEDIATE_ACK] + padding, alone
-                // in its transmit, at least as large as the estimate)
-                if p.space == Space::OneRtt && is_mtu_probe(&fr) && tx.size >= tx.mtu_before as usize && tx.pk_to - tx.pk_from == 1 {
+                // already confirmed, or one below: a probe all the same — PING [+ IMMEDIATE_ACK] +
+                // padding, alone in its transmit, counted as a probe by the connection's statistics)
+                if p.space == Space::OneRtt && is_mtu_probe(&fr) && tx.mtu_probe && tx.pk_to - tx.pk_from == 1 {
                     exempt = true;
                 }
             }
